@@ -158,11 +158,12 @@ func c03Explore(e *fw.Env, r *fw.Result, bound int, restrict map[string][]int, p
 func init() {
 	fw.Register(&fw.Check{
 		ID: "C03", Level: "exploration", Shards: shards16,
-		Rule:   "syntax-directed VP8L stream generator driven by the explorer: pass A = the full product of all 65 ordered transform subsets x 12 dimensions x 2 tile sizes with at most 1 further deviation; pass B = 10 transform orders x 5 dimensions with at most 2 (thorough 3) deviations; deviation menus: predictor tile size and each of the 14 modes (constant / cycling), cross-colour multipliers, palette sizes {1,2,3,4,5,16,17,255,256} with 1/2/4/8-bit packing and indices beyond the palette, colour cache sizes (main image and every sub-image), meta prefix image (one group, checkerboard, sparse ids), prefix-code shapes (simple 1/2 symbols, single-symbol normal code, length-15 skewed, with/without max_symbol and repeat codes), 7 backward-reference programs (every plane code 1..120, plain distances, overlapping, row/tile-crossing, ending at the image end); oracle: vendored x/image vp8l decoder, libwebp arbitrating; distinct = distinct stream bytes",
+		Rule:   "syntax-directed VP8L stream generator driven by the explorer: pass A = the full product of all 65 ordered transform subsets x 12 dimensions x 2 tile sizes with at most 1 further deviation; pass B = 10 transform orders x 5 dimensions with at most 2 (thorough 3) deviations; pass C = a 128x160 picture x 5 transform orders with at most 2 deviations (copy lengths up to 4096, i.e. every extra-bit class); deviation menus: predictor tile size and each of the 14 modes (constant / cycling), cross-colour multipliers, palette sizes {1,2,3,4,5,16,17,255,256} with 1/2/4/8-bit packing and indices beyond the palette, colour cache sizes (main image and every sub-image), meta prefix image (one group, checkerboard, sparse ids), prefix-code shapes (simple 1/2 symbols, single-symbol normal code, length-15 skewed in both directions, with/without max_symbol and repeat codes), 8 backward-reference programs (every plane code 1..120, plain distances, overlapping, row/tile-crossing, ending at the image end); oracle: vendored x/image vp8l decoder, libwebp arbitrating; distinct = distinct stream bytes",
 		Assume: []string{"a stream both references reject is a generator fault (counted, never a violation); a stream on which the references disagree is dropped and counted", "the exported lossless.DecodeVP8L and webp.Decode on the RIFF-wrapped stream are both exercised"},
 		Run: func(e *fw.Env, r *fw.Result) {
 			pin()
-			c03Explore(e, r, 1, nil, "A-full-product")
+			small := []int{0, 1, 2, 3, 4, 5, 6, 7, 8, 9, 10, 11, 12}
+			c03Explore(e, r, 1, map[string][]int{"dims": small}, "A-full-product")
 			bB := 2
 			if !e.Quick() {
 				bB = 3
@@ -178,6 +179,9 @@ func init() {
 				}
 			}
 			c03Explore(e, r, bB, map[string][]int{"transforms": orders, "dims": {0, 3, 5, 8, 10}, "tilebits": {0}}, "B-deviations")
+			// pass C: the one large picture (copy lengths with up to 10 extra bits, many tokens at every bit
+			// alignment of the reader's window) x 5 transform orders with at most 2 deviations
+			c03Explore(e, r, 2, map[string][]int{"transforms": orders[:5], "dims": {13}, "tilebits": {0}}, "C-large-picture")
 			r.Count("generator_invalid_streams", c03Stats.generatorInvalid)
 			r.Count("vendored_decoder_limit_libwebp_used", c03Stats.refLimit)
 			r.Count("oracle_disagreement_dropped", c03Stats.oracleDisagree)
